@@ -506,6 +506,11 @@ def tables_del_ins(window):
                           'task_timeout_timers'):
                     ins.setdefault(t, set()).add(bi)
                     dele.setdefault(t, set()).add(bi)
+                # put_task_pool also UPDATEs the task_states row of every
+                # pooled task (submit number, status): merged with the
+                # put_update_task_state UPDATEs of a later batch these run
+                # grouped by statement text, not in their original order
+                dele.setdefault('task_states', set()).add(bi)
             elif k in ('state', 'outputs', 'job', 'jobupd', 'param', 'flow',
                        'xtrig', 'abs'):
                 tbl = {'state': 'task_states', 'outputs': 'task_outputs',
